@@ -77,7 +77,8 @@ def check(m, run):
     with run.corroborating(rt_ok, 'RT2/RT3', rules=('OR1.single-origin', 'OR1.rotation-origin')):
         origin(m, run)
     from .. import rules_state as rs
-    rs.iv1(m, run, rs.GEOM, caches_filter=lambda c: c == '_eval_points')
+    rs.iv1(m, run, rs.GEOM, caches_filter=lambda c: c in ('_eval_points', "_cache['ctrlpts']", "_cache['weights']"))      # the transforms write through the control point setters: evaluated points and the rational views follow
+    _sd.evx(m, run)       # ... and the transformed shape is what the evaluators make of the transformed control points (EVX, shared with C01)
     iteration(m, run)
     # rational setters used by the transforms pass sizes in axis order (shared with C09)
     fs = []
